@@ -112,3 +112,51 @@ func DecodeSUCI(b []byte) (mcc, mnc, msin []byte, ok bool) {
 	}
 	return mcc, mnc, msin, true
 }
+
+// PLMNOctet is octet n (0..2) of the PLMN identity for the MCC and MNC given as
+// digit strings (TS 23.003 2.2, TS 24.501 9.11.3.4, TS 38.413 9.3.3.5).
+//
+//vc:smtfun
+func PLMNOctet(mcc, mnc string, n int) byte {
+	mnc3 := byte(0xf)
+	if len(mnc) == 3 {
+		mnc3 = Digit(mnc[2])
+	}
+	switch n {
+	case 0:
+		return Digit(mcc[1])<<4 | Digit(mcc[0])
+	case 1:
+		return mnc3<<4 | Digit(mcc[2])
+	}
+	return Digit(mnc[1])<<4 | Digit(mnc[0])
+}
+
+// HexDigit is the value of an ASCII hexadecimal digit.
+func HexDigit(c byte) byte {
+	switch {
+	case '0' <= c && c <= '9':
+		return c - '0'
+	case 'a' <= c && c <= 'f':
+		return c - 'a' + 10
+	case 'A' <= c && c <= 'F':
+		return c - 'A' + 10
+	}
+	return 0
+}
+
+// IsHexDigit: c is an ASCII hexadecimal digit.
+func IsHexDigit(c byte) bool {
+	return '0' <= c && c <= '9' || 'a' <= c && c <= 'f' || 'A' <= c && c <= 'F'
+}
+
+// HexOctet is octet j of the octet string written in hexadecimal as s.
+func HexOctet(s string, j int) byte { return HexDigit(s[2*j])<<4 | HexDigit(s[2*j+1]) }
+
+// AMF identifier (TS 23.003 2.10.1): AMF Region ID (8 bits) || AMF Set ID (10 bits) || AMF Pointer (6 bits),
+// written as six hexadecimal digits.
+func AMFID24(s string) uint32 {
+	return uint32(HexOctet(s, 0))<<16 | uint32(HexOctet(s, 1))<<8 | uint32(HexOctet(s, 2))
+}
+func AMFRegion(id uint32) uint8  { return uint8(id >> 16) }
+func AMFSet(id uint32) uint16    { return uint16(id>>6) & 0x3ff }
+func AMFPointer(id uint32) uint8 { return uint8(id) & 0x3f }
